@@ -4,7 +4,7 @@ From RecordUpdate Require Import RecordSet.
 From SV Require Import Base.Base IR.State IR.NS IR.Ops Xform.Clone Proofs.AssocX Proofs.Frame Proofs.Inv1a Proofs.Inv2a
   Proofs.InvP Proofs.InvW Proofs.Fresh Proofs.NsInv Proofs.Repoint Proofs.CloneInv Proofs.RefK Proofs.CloneRef Proofs.CloneT Proofs.FieldT
   Proofs.CloneMemo Proofs.CloneRR Proofs.CloneFaith Proofs.CloneInvP Proofs.CloneFull
-  Proofs.CloneMemoK Proofs.CloneFaithK Proofs.CloneStage Proofs.CloneStageP Proofs.CloneRun Proofs.CloneRemap Proofs.CloneComm Proofs.CloneLib
+  Proofs.CloneMemoK Proofs.CloneFaithK Proofs.CloneStage Proofs.CloneStageP Proofs.CloneRun Proofs.CloneRekey Proofs.CloneEx Proofs.CloneRemap Proofs.CloneComm Proofs.CloneLib
   Proofs.SrcTree Proofs.CloneNet.
 Import ListNotations RecordSetNotations.
 
@@ -51,6 +51,7 @@ Proof.
     + intros x j w Hx Hw. rewrite Fi in Hw. apply (ri_nw _ _ _ R x j w Hx Hw).
     + intros d Hd. rewrite Fd. apply (ri_dr _ _ _ R d Hd).
   - intros d d' H Hk. apply (defimg_notlibs s0 d d' s s' m Fk). apply (rx_di _ _ _ X d d' H Hk).
+  - apply (ex_same s0 s s' m (rx_ex _ _ _ X) (st_fun _ _ _ (ri_st _ _ _ R))); assumption.
   - intros x x' H Hk. rewrite Fr. apply (ry_ir _ _ _ Y x x' H Hk).
   - intros d d' H Hk n. rewrite Fd. apply (ry_d1 _ _ _ Y d d' H Hk n).
   - intros d d' H Hk n. rewrite Fd. apply (ry_d2 _ _ _ Y d d' H Hk n).
@@ -172,8 +173,10 @@ Section InstStage.
     { intros a b H Hka. rewrite Hm4 in H. destruct H as [H|H]; [injection H as <- <-; congruence|exact H]. }
     split; [|repeat split; try assumption].
     - constructor.
-      + constructor; [exact RG|]. intros d d' H Hkd0. pose proof (Hnd d d' H Hkd0) as Hi0.
-        apply (defimg_stable s0 d d' s m _ _ (rx_di _ _ _ X d d' Hi0 Hkd0) (ri_kl _ _ _ R)); [apply (st_rng _ _ _ ST0 d d' Hi0)|exact Hsub|exact Hks].
+      + constructor; [exact RG| |].
+        * intros d d' H Hkd0. pose proof (Hnd d d' H Hkd0) as Hi0.
+          apply (defimg_stable s0 d d' s m _ _ (rx_di _ _ _ X d d' Hi0 Hkd0) (ri_kl _ _ _ R)); [apply (st_rng _ _ _ ST0 d d' Hi0)|exact Hsub|exact Hks].
+        * apply (ex_of_stage s0 s G m m4 _ ST0 (rx_ex _ _ _ X) SO (inv_p _ I0) FT0 F0 K0).
       + intros a b H Hka. rewrite Hm4 in H. destruct H as [H|H].
         * injection H as <- <-. left. change (iref G) with (iref s4). rewrite Ir4, Ht', upd_same. exact Hirt.
         * change (iref G) with (iref s4). rewrite Ir4. unfold upd. destruct (st_rng _ _ _ ST0 a b H) as [_ [_ Hb]].
